@@ -16,6 +16,7 @@ from engine.pyvc.core import (I, R, B, Dyn, Ref, Ext, BoundMethod, Unknown,
                               TAG_NONE, TAG_BOOL, TAG_INT, TAG_FLOAT, TAG_STR,
                               TAG_OBJ, strid, NOTFOUND)
 from engine.pyvc.extlib import Lib
+from contracts.py import algebra as alg
 
 LIB = Lib()
 L = LIB
@@ -582,6 +583,9 @@ def m_sqrt(ex, st, args, kwargs, n):
         r = z3.Real(ex.fresh('sqrt'))
         st.ghost[key] = r
         st.ghost[('keep', t.get_id())] = t
+        if ex.cfg.get('algebra'):
+            alg.facts(ex).append(z3.Implies(t >= 0, z3.And(r >= 0,
+                                                          r * r == t)))
         if ex.cfg.get('exact_sqrt'):
             st.pc.append(z3.And(r >= 0, r * r == t))
         else:
@@ -621,9 +625,12 @@ def c_matrix(ex, st, args, kwargs, n):
     if is_matrix(st, x):
         o = mat(st, x)
         nr, nc = sz if sz else (o.f['nrows'], o.f['ncols'])
-        return L.new_matrix(ex, st, nr, nc, tc if isinstance(tc, str) else
-                            o.f['tc'], site=n.lineno, symval=o.f['sym']
-                            if not sz else None)
+        r_ = L.new_matrix(ex, st, nr, nc, tc if isinstance(tc, str) else
+                           o.f['tc'], site=n.lineno, symval=o.f['sym']
+                           if not sz else None)
+        if alg.enabled(ex) and not sz:
+            alg.setval(st, r_, o.f.get('val'))
+        return r_
     c, k = const_of(x)
     if c and isinstance(k, (int, float)) or isinstance(x, (I, R, Dyn)):
         t = tc if isinstance(tc, str) else ('i' if (c and isinstance(
@@ -631,8 +638,11 @@ def c_matrix(ex, st, args, kwargs, n):
         if sz is None:
             sz = (1, 1)
         # a constant matrix is symmetric in every 's' block
-        return L.new_matrix(ex, st, sz[0], sz[1], t, site=n.lineno,
-                            symval=z3.Int('SYM_ALL'))
+        r_ = L.new_matrix(ex, st, sz[0], sz[1], t, site=n.lineno,
+                          symval=z3.Int('SYM_ALL'))
+        if alg.enabled(ex) and c and k == 0:
+            alg.setval(st, r_, {})
+        return r_
     if isinstance(x, Ref) and st.heap[x.oid].kind in ('list', 'range'):
         ln = L.iter_len(ex, st, x) if st.heap[x.oid].kind == 'range' else \
             L.sym_len(ex, st, x)
@@ -825,6 +835,9 @@ def mutate(ex, st, v, how, n, sym=None):
     if is_matrix(st, v):
         L.on_mutate(ex, st, v, how, n)
         mat(st, v).f['sym'] = sym if sym is not None else z3.IntVal(0)
+        if 'val' in mat(st, v).f and how not in (
+                'misc.symm', "misc.sgemv(trans='T') [trisc/triusc on x]"):
+            mat(st, v).f['val'] = None
     elif isinstance(v, Ref):
         L.on_mutate(ex, st, v, how, n)
     elif isinstance(v, Unknown):
@@ -846,7 +859,21 @@ def zmin2(a, b):
 def blas_scal(ex, st, args, kwargs, n):
     x = arg(args, kwargs, 1, 'x')
     keep = is_matrix(st, x) and not partial(kwargs, 'n', 'offset', 'inc')
+    old = alg.valof(st, x)
     mutate(ex, st, x, 'blas.scal', n, mat(st, x).f['sym'] if keep else None)
+    if alg.enabled(ex) and keep:
+        a0 = arg(args, kwargs, 0, 'alpha')
+        c0, k0 = const_of(a0)
+        if c0 and k0 == 0:
+            alg.setval(st, x, {})
+    if alg.enabled(ex) and keep and old is not None:
+        a = arg(args, kwargs, 0, 'alpha')
+        try:
+            ka, ta = ex.num(st, a, n)
+            alg.setval(st, x, alg.scale(old, z3.ToReal(ta) if ka == 'int'
+                                        else ta))
+        except Exception:
+            pass
     return None
 
 
@@ -858,6 +885,8 @@ def blas_copy(ex, st, args, kwargs, n):
         and len(args) <= 2
     s = mat(st, x).f['sym'] if (full and is_matrix(st, x)) else None
     mutate(ex, st, y, 'blas.copy', n, s)
+    if alg.enabled(ex) and full:
+        alg.setval(st, y, alg.valof(st, x))
     return None
 
 
@@ -870,7 +899,16 @@ def blas_axpy(ex, st, args, kwargs, n):
     s = None
     if full and is_matrix(st, x) and is_matrix(st, y):
         s = zmin2(mat(st, x).f['sym'], mat(st, y).f['sym'])
+    oldy = alg.valof(st, y)
     mutate(ex, st, y, 'blas.axpy', n, s)
+    if alg.enabled(ex) and full:
+        al = arg(args, kwargs, 2, 'alpha', 1.0)
+        try:
+            ka, ta = ex.num(st, al, n)
+            ta = z3.ToReal(ta) if ka == 'int' else ta
+            alg.setval(st, y, alg.add(oldy, alg.scale(alg.valof(st, x), ta)))
+        except Exception:
+            pass
     return None
 
 
@@ -881,8 +919,14 @@ def blas_swap(ex, st, args, kwargs, n):
     return None
 
 
-def inner_product(ex, st, x, y, what):
+def inner_product(ex, st, x, y, what, kind='ip'):
     """<x,y>: a real; nonnegative when x and y are the same object"""
+    if alg.enabled(ex):
+        t = alg.inner(kind, alg.valof(st, x), alg.valof(st, y), ex)
+        if t is not None:
+            if isinstance(x, Ref) and isinstance(y, Ref) and x.oid == y.oid:
+                st.pc.append(t >= 0)
+            return R(t)
     r = ex.fresh_real(what)
     if isinstance(x, Ref) and isinstance(y, Ref) and x.oid == y.oid:
         st.pc.append(r.t >= 0)
@@ -917,6 +961,54 @@ def blas_iamax(ex, st, args, kwargs, n):
     return r
 
 
+def linear_update(ex, st, A, x, y, oldy, trans, alpha, beta, n):
+    """y := alpha*op(A)*x + beta*y on ghost values"""
+    if not alg.enabled(ex) or not is_matrix(st, A):
+        return
+    nm = mat(st, A).meta.get('name') or 'M%d' % A.oid
+    op = nm if trans == 'N' else nm + 't'
+    if mat(st, A).meta.get('lower_only'):
+        op = nm        # symmetric operator
+    try:
+        ka, ta = ex.num(st, alpha, n)
+        kb, tb = ex.num(st, beta, n)
+    except Exception:
+        alg.setval(st, y, None)
+        return
+    ta = z3.ToReal(ta) if ka == 'int' else ta
+    tb = z3.ToReal(tb) if kb == 'int' else tb
+    img = alg.scale(alg.apply_op(alg.valof(st, x), op), ta)
+    cb, vb = const_of(beta)
+    if cb and vb == 0:
+        alg.setval(st, y, img)
+    else:
+        alg.setval(st, y, alg.add(img, alg.scale(oldy, tb)))
+
+
+def gemv_like(name, what):
+    @L.register(name, mutates=['y'])
+    def h(ex, st, args, kwargs, n):
+        A = arg(args, kwargs, 0, 'A')
+        x = arg(args, kwargs, 1, 'x')
+        y = arg(args, kwargs, 2, 'y')
+        oldy = alg.valof(st, y)
+        if y is not None:
+            mutate(ex, st, y, what, n)
+        trans = arg(args, kwargs, None, 'trans', 'N')
+        c, t = const_of(trans)
+        full = not any(k in kwargs for k in ('m', 'n', 'ldA', 'incx', 'incy',
+                                             'offsetA', 'offsetx',
+                                             'offsety'))
+        if c and full:
+            linear_update(ex, st, A, x, y, oldy, t,
+                          arg(args, kwargs, None, 'alpha', 1.0),
+                          arg(args, kwargs, None, 'beta', 0.0), n)
+        else:
+            alg.setval(st, y, None)
+        return None
+    return h
+
+
 def _mut(name, params, positions):
     """generic mutator contract: params = names of modified arguments,
     positions = their positional index"""
@@ -945,7 +1037,7 @@ for _nm, _ps, _is in [
         ('cvxopt.blas.herk', ['C'], [1]), ('cvxopt.blas.syr2k', ['C'], [2]),
         ('cvxopt.blas.her2k', ['C'], [2]), ('cvxopt.blas.trmm', ['B'], [1]),
         ('cvxopt.blas.trsm', ['B'], [1]),
-        ('cvxopt.base.gemv', ['y'], [2]), ('cvxopt.base.symv', ['y'], [2]),
+
         ('cvxopt.base.gemm', ['C'], [2]), ('cvxopt.base.syrk', ['C'], [1]),
         ('cvxopt.base.axpy', ['y'], [1]),
         ('cvxopt.misc.scale', ['x'], [0]), ('cvxopt.misc.scale2', ['x'], [1]),
@@ -979,6 +1071,9 @@ for _nm, _ps, _is in [
         ('cvxopt.lapack.potri', ['A'], [0])]:
     _mut(_nm, _ps, _is)
 
+gemv_like('cvxopt.base.gemv', 'base.gemv')
+gemv_like('cvxopt.base.symv', 'base.symv')
+
 for _nm in ('potrf', 'sytrf', 'getrf', 'posv', 'gesv', 'sysv', 'pbtrf',
             'trtri', 'potri', 'potrs', 'trtrs'):
     L.hooks.setdefault('may_raise_arith', set()).add('cvxopt.lapack.' + _nm)
@@ -1010,7 +1105,10 @@ def misc_sgemv(ex, st, args, kwargs, n):
                 # net effect on x: the strict upper triangles of the 's'
                 # blocks are zeroed; the lower triangles are unchanged
                 mat(st, x).f['last_max_step'] = keep
+    oldy = alg.valof(st, y)
     mutate(ex, st, y, 'misc.sgemv', n)
+    linear_update(ex, st, arg(args, kwargs, 0, 'A'), x, y, oldy, t,
+                  alpha, arg(args, kwargs, 6, 'beta', 0.0), n)
     return None
 
 
@@ -1093,6 +1191,12 @@ def misc_max_step(ex, st, args, kwargs, n):
 
 @L.register('cvxopt.misc.snrm2', pure=True)
 def misc_snrm2(ex, st, args, kwargs, n):
+    if alg.enabled(ex):
+        x = arg(args, kwargs, 0, 'x')
+        t = alg.inner('sip', alg.valof(st, x), alg.valof(st, x), ex)
+        if t is not None:
+            st.pc.append(t >= 0)
+            return L.ext['math.sqrt'](ex, st, [R(t)], {}, n)
     r = ex.fresh_real('snrm2')
     st.pc.append(r.t >= 0)
     return r
@@ -1101,7 +1205,7 @@ def misc_snrm2(ex, st, args, kwargs, n):
 @L.register('cvxopt.misc.sdot', pure=True)
 def misc_sdot(ex, st, args, kwargs, n):
     return inner_product(ex, st, arg(args, kwargs, 0, 'x'),
-                         arg(args, kwargs, 1, 'y'), 'sdot')
+                         arg(args, kwargs, 1, 'y'), 'sdot', kind='sip')
 
 
 L.ext['cvxopt.misc.sdot2'] = misc_sdot
